@@ -4,7 +4,11 @@ import json, os, sys
 
 ROOT = os.path.dirname(os.path.dirname(os.path.abspath(__file__)))
 sys.path.insert(0, os.path.join(ROOT, "tools"))
-from claims import CLAIMS, NOT_APPLICABLE, HOOK_COMMITS  # noqa
+from claims import NOT_APPLICABLE, HOOK_COMMITS  # noqa
+import glob
+CLAIMS = {}
+for f in sorted(glob.glob(os.path.join(ROOT, "tools", "claims.d", "C*.json"))):
+    CLAIMS[os.path.basename(f)[:-5]] = json.load(open(f))
 
 props = [json.loads(l) for l in open(os.path.join(ROOT, "properties.jsonl"))]
 ids = [p["id"] for p in props]
